@@ -28,6 +28,13 @@ func anyValue(rt *rapid.T, budget int) genValue {
 	case 0, 1:
 		m, _, k := g.Message()
 		gv.v, gv.kind, gv.family = m, k, "message"
+		if gen.Pick(rt, "from_decoded_parts", 6) == 0 {
+			// a message put together from decoded parts (transplant_test.go) is a completed value like any other
+			if tb, ok := transplantMessage(rt); ok {
+				gv.v, gv.kind = tb.m, tb.kind
+				gv.labels = tb.labels
+			}
+		}
 	case 2:
 		for {
 			sm := g.SwitchMessage()
